@@ -519,7 +519,7 @@ def oracle(case, obs):
         expect = []
         for lines in contents:
             for l in lines:
-                expect.extend(_wrap(l, w))
+                expect.extend(r.rstrip(" ") for r in _wrap(l, w))      # the screen is read blank-insensitively
         scr = emu.screen()
         scr = scr + [""] * (anchor + len(expect) - len(scr))
         if scr[:anchor] != (above + [""] * anchor)[:anchor]:
